@@ -17,16 +17,17 @@ type TxGen func(r *kernel.Run, rng *kernel.Rng) *kernel.Tx
 // genSource is the seeded generator: block cadence, faults and transactions. What it produces is recorded by
 // the Run (Run.Recorded) as concrete steps, so a replay never needs the generator.
 type genSource struct {
-	rng       *kernel.Rng
-	nBlocks   int
-	made      int
-	Cadence   func(r *kernel.Run, rng *kernel.Rng) int64
-	TxGens    []TxGen
-	MaxTxs    int
-	PTx       float64
-	BlockHook func(r *kernel.Run, rng *kernel.Rng, b *kernel.Block, idx int)
-	txInBlock int
-	txQuota   int
+	rng        *kernel.Rng
+	nBlocks    int
+	made       int
+	Cadence    func(r *kernel.Run, rng *kernel.Rng) int64
+	TxGens     []TxGen
+	MaxTxs     int
+	PTx        float64
+	BlockHook  func(r *kernel.Run, rng *kernel.Rng, b *kernel.Block, idx int)
+	NoDupStale bool
+	txInBlock  int
+	txQuota    int
 }
 
 func (g *genSource) NextBlock(r *kernel.Run) *kernel.Block {
@@ -54,6 +55,15 @@ func (g *genSource) NextTx(r *kernel.Run, b *kernel.Block) *kernel.Tx {
 	for tries := 0; tries < 4; tries++ {
 		gen := g.TxGens[g.rng.Intn(len(g.TxGens))]
 		if tx := gen(r, g.rng); tx != nil {
+			// F-order: the mempool sometimes delivers a transaction twice, or replays one with a stale sequence
+			if tx.Route == "" && !g.NoDupStale {
+				switch g.rng.Intn(30) {
+				case 0:
+					tx.Dup = true
+				case 1:
+					tx.SeqDelta = -1
+				}
+			}
 			return tx
 		}
 	}
